@@ -160,7 +160,20 @@ def run(ck: Check):
     for fn in sorted(glob.glob(os.path.join(VERIF, "corpus", "C01", "*.json"))):
         scs.append(json.load(open(fn)))        # minimised past failures run first
     for i in range(n):
-        scs.append(prodsim.gen_scenario(rng, i, idempotent=(i % 4 != 3)))
+        sc = prodsim.gen_scenario(rng, i, idempotent=(i % 4 != 3))
+        # a third of the runs: flush() while batches are still lingering / in flight (a flushed batch must be
+        # stamped and ordered exactly like a batch drained by the linger timer)
+        if rng.random() < 0.35:
+            sc["linger_ms"] = rng.choice([5, 50, 200])
+            sc["flush_after"] = [rng.choice([0.0005, 0.002, 0.011, 0.05, 0.101, 0.3]) for _ in range(rng.choice([1, 2]))]
+        scs.append(sc)
+    # flush() on a lingering batch followed by a lost reply: the re-sent batch must be recognised by the leader
+    for j in range(ck.n(16, 160)):
+        sc = prodsim.gen_scenario(rng, 500000 + j, idempotent=True, n_faults=0)
+        sc["linger_ms"] = rng.choice([50, 200, 500])
+        sc["flush_after"] = [rng.choice([0.001, 0.004, 0.02])]
+        sc["faults"] = {str(rng.randrange(1, 4)): {"kind": rng.choice(["drop_after", "no_reply"])}}
+        scs.append(sc)
     # systematic single-fault placement over one base run (fault enumeration)
     base_rng = random.Random(12345)
     base = prodsim.gen_scenario(base_rng, 0, idempotent=True, n_faults=0, brokers=2, partitions=2)
@@ -269,6 +282,12 @@ def run(ck: Check):
                 if rejected <= 5:
                     ck.obligation(f"correspondence:trace-accepted:scenario{sc['id']}-p{t['part']}", False,
                                   f"model rejects event #{idx} {ev} of the trace; scenario faults={sc['faults']}")
+                    ck.violation(f"the real producer did something the producer model (whose guards are the property's "
+                                 f"clauses) does not allow: partition {t['part']} of scenario {sc['id']}, event #{idx} {ev} "
+                                 f"after {t['tr'][max(0, idx - 6):idx]}",
+                                 {"scenario": sc, "partition": t["part"], "rejected_event_index": idx,
+                                  "context": t["tr"][max(0, idx - 8):idx + 1]},
+                                 signature=f"trace-rejected:{ev[0] if ev else ''}")
                     # a rejected trace is a broken correspondence; whether the property itself fails
                     # is what the monitor decides (it saw the same run).
                 continue
